@@ -758,8 +758,9 @@ def reduced_reselect_case(ctx, rng, idx):
         cand = [c for c in cand if len(c) == len(sel1) and c != sel1]
         if cand:
             sel2 = cand[0]
+    centered = bool(rng.random() < 0.6)
     base = (chi.GaussianModel if kind == 'G' else chi.LogNormalModel)(
-        n_dim=n_dim)
+        n_dim=n_dim, centered=centered)
     cpm = chi.CovariatePopulationModel(
         base, chi.LinearCovariateModel(n_cov=n_cov))
     cpm.set_population_parameters(sel1)
@@ -780,13 +781,50 @@ def reduced_reselect_case(ctx, rng, idx):
         red.compute_log_likelihood(
             np.full(red.n_parameters(), 0.4), np.full((n_ids, n_dim), 0.7),
             covariates=np.full((n_ids, n_cov), 0.1))
+        new_dims = None
+        if rng.random() < 0.5:
+            # the dimensions are named through the wrapper after the
+            # fixing: the fixed parameters are known by their new names
+            new_dims = ['organ %d' % d for d in range(n_dim)]
+            red.set_dim_names(new_dims)
+            feats['renamed_dimensions_after_fixing'] = True
+
+            def ren(n_):
+                for d in range(n_dim):
+                    n_ = n_.replace('Dim. %d' % (d + 1), new_dims[d])
+                return n_
+            fixed = dict((ren(k_), v_) for k_, v_ in fixed.items())
         red.get_population_model().set_population_parameters(sel2)
         twin = chi.CovariatePopulationModel(
             (chi.GaussianModel if kind == 'G' else chi.LogNormalModel)(
-                n_dim=n_dim), chi.LinearCovariateModel(n_cov=n_cov))
+                n_dim=n_dim, centered=centered),
+            chi.LinearCovariateModel(n_cov=n_cov))
         twin.set_population_parameters(sel2)
+        if new_dims is not None:
+            twin.set_dim_names(new_dims)
         full_names = twin.get_parameter_names()
         want_free = [n_ for n_ in full_names if n_ not in fixed]
+        if rng.random() < 0.5 and want_free:
+            # the FIRST call after the re-selection is the transform of the
+            # individual parameters (no accessor has been asked before)
+            v_ = dict((n_, float(rng.uniform(0.2, 0.6))) for n_ in want_free)
+            xf_ = np.array([fixed.get(n_, v_.get(n_)) for n_ in full_names])
+            eta_ = rng.uniform(0.2, 0.8, size=(n_ids, n_dim))
+            cv_ = rng.uniform(-1, 1, size=(n_ids, n_cov))
+            p_red = np.asarray(red.compute_individual_parameters(
+                np.array([v_[n_] for n_ in want_free]), eta_, cv_),
+                dtype=float)
+            p_twin = np.asarray(twin.compute_individual_parameters(
+                xf_, eta_, cv_), dtype=float)
+            ctx.count('first_call_transforms')
+            if p_red.shape != p_twin.shape or not ctx.close(
+                    p_red, p_twin, rtol=1e-12):
+                ctx.violation('fixed_by_name_across_reselection',
+                              'first_transform_after_reselection',
+                              {'reduced model': p_red,
+                               'covariate model at the named values': p_twin,
+                               'case': feats}, feats)
+                return
         got_free = red.get_parameter_names()
     except Exception as e:      # noqa
         ctx.violation_exc('evaluation_raises', e, {'case': feats}, feats)
